@@ -2197,6 +2197,42 @@ def normalize_module(tree: ast.Module, extern=None) -> ast.Module:
                             e.value, str) for e in coll[c.args[0].id].elts):
                 c.args[0] = ast.copy_location(clone(coll[c.args[0].id]),
                                               c.args[0])
+    # NAME = frozenset({"a", "b"}) / {"a", "b"} (module level, bound once):
+    # the literal set where it is intersected with keys or tested with
+    # isdisjoint/intersection
+    ssets = {}
+    for st in tree.body:
+        if isinstance(st, ast.Assign) and len(st.targets) == 1 and \
+                isinstance(st.targets[0], ast.Name):
+            v = st.value
+            if isinstance(v, ast.Call) and norm(v.func) in (
+                    "frozenset", "set") and len(v.args) == 1 and \
+                    not v.keywords:
+                v = v.args[0]
+            if isinstance(v, (ast.Set, ast.Tuple, ast.List)) and v.elts and \
+                    all(isinstance(e, ast.Constant) and isinstance(
+                        e.value, str) for e in v.elts) and isinstance(
+                    st.value, (ast.Set, ast.Call)):
+                nm = st.targets[0].id
+                if sum(1 for n in ast.walk(tree) if isinstance(n, ast.Name)
+                       and n.id == nm and isinstance(
+                           n.ctx, (ast.Store, ast.Del))) == 1:
+                    ssets[nm] = ast.Set(elts=list(v.elts))
+    if ssets:
+        for n in ast.walk(tree):
+            if isinstance(n, ast.BinOp) and isinstance(n.op, ast.BitAnd):
+                for fld in ("left", "right"):
+                    x = getattr(n, fld)
+                    if isinstance(x, ast.Name) and x.id in ssets:
+                        setattr(n, fld, ast.copy_location(
+                            clone(ssets[x.id]), x))
+            if isinstance(n, ast.Call) and isinstance(
+                    n.func, ast.Attribute) and n.func.attr in (
+                    "isdisjoint", "intersection") and isinstance(
+                    n.func.value, ast.Name) and n.func.value.id in ssets:
+                n.func.value = ast.copy_location(
+                    clone(ssets[n.func.value.id]), n.func.value)
+        ast.fix_missing_locations(tree)
     # NAME = {"k": operator.mul, "l": some_function} (module level, bound
     # once, never edited): NAME["k"] -> the function
     bound_, count_ = {}, {}
@@ -2266,6 +2302,7 @@ def normalize_module(tree: ast.Module, extern=None) -> ast.Module:
             n2.incremental_dicts(n)
             n2.single_use_dicts(n)
             n2.flag_finally(n)
+            n2.chainmap_locals(n)
             n2.exitstack_rollback(n)
             n2.exitstack_enter(n)
             n2.sink_selected_calls(n)
